@@ -1,5 +1,7 @@
 import OpusProofs.FramingSafe
 import OpusProofs.FramingRange
+import OpusProofs.FramingHelpers
+import OpusProofs.FramingTraceEq
 /-
   Property C06 — "Packet parser accepts exactly RFC 6716 framing and reports the true frames".
 
@@ -103,8 +105,27 @@ theorem parse_err_kind (sd : Bool) (bs : Bytes) (len : Int) (e : Err)
     generalize bs.take len.toNat = b at h
     exact FramingProofs.parseImpl_err_invalid sd b e h
 
-/-- `encode_size` (used by the repacketizer and the encoder) writes the RFC length coding. -/
+/-- `encode_size` (used by the repacketizer and the encoder) is, definition for definition, the length coding
+    `encLen` that the spec's `serialize` uses (kept for the importers of this name; it carries no RFC content by
+    itself — that is `encode_size_roundtrip`). -/
 theorem encodeSize_eq_spec (n : Nat) : encodeSize n = encLen n := rfl
+
+/-- RFC 6716 §3.2.1 frame length coding, as content: for every frame length `0 ≤ n ≤ 1275`, `encode_size` writes one
+    byte `n` when `n < 252`, otherwise two bytes `b0 ∈ [252, 255]`, `b1 ≤ 255` with `n = 4·b1 + b0`; and `parse_size`
+    reads exactly `n` (and the number of bytes written) back, whatever follows. -/
+theorem encode_size_roundtrip (n : Nat) (hn : n ≤ 1275) (tail : Bytes) (len : Int)
+    (hl : ((encodeSize n).length : Int) ≤ len) :
+    parseSize (encodeSize n ++ tail) len = .ok (((encodeSize n).length : Int), (n : Int)) ∧
+    (n < 252 → encodeSize n = [n]) ∧
+    (252 ≤ n → ∃ b0 b1, encodeSize n = [b0, b1] ∧ 252 ≤ b0 ∧ b0 ≤ 255 ∧ b1 ≤ 255 ∧ n = 4 * b1 + b0) := by
+  refine ⟨FramingProofs.parseSize_encLen n hn tail len hl, ?_, ?_⟩
+  · intro h; unfold encodeSize; rw [if_pos h]
+  · intro h
+    refine ⟨252 + n % 4, (n - (252 + n % 4)) / 4, ?_, by omega, by omega, by omega, by omega⟩
+    unfold encodeSize; rw [if_neg (by omega)]
+
+example : encodeSize 1275 = [255, 255] ∧ encodeSize 252 = [252, 0] ∧ encodeSize 251 = [251] ∧
+    parseSize (encodeSize 1275 ++ [7]) 2 = .ok (2, 1275) := by decide +kernel
 
 /-- The TOC helpers agree with the spec's reading of the TOC for every TOC byte:
     frame duration (Table 2), channel count, and the three modes partition the configs. -/
@@ -117,6 +138,104 @@ theorem helpers_agree : ∀ toc ∈ List.range 256,
     1101 ≤ getBandwidth toc ∧ getBandwidth toc ≤ 1105 ∧
     (∀ fs ∈ [8000, 12000, 16000, 24000, 48000], samplesPerFrame toc fs * (48000 / fs) = samplesPerFrame toc 48000) := by
   decide +kernel
+
+/-- RFC 6716 Table 2, written out: for configuration number 0..31 (the top five bits of the TOC byte) the mode
+    (1000 SILK-only, 1001 hybrid, 1002 CELT-only — the values of MODE_* in src/opus_private.h), the audio bandwidth
+    (OPUS_BANDWIDTH_NARROWBAND 1101, MEDIUMBAND 1102, WIDEBAND 1103, SUPERWIDEBAND 1104, FULLBAND 1105) and the frame
+    duration in samples at 48 kHz (120 = 2.5 ms, 240 = 5 ms, 480 = 10 ms, 960 = 20 ms, 1920 = 40 ms, 2880 = 60 ms). -/
+def table2 : List (Nat × Nat × Nat) :=
+  [
+   (1000, 1101, 480), (1000, 1101, 960), (1000, 1101, 1920), (1000, 1101, 2880),
+   (1000, 1102, 480), (1000, 1102, 960), (1000, 1102, 1920), (1000, 1102, 2880),
+   (1000, 1103, 480), (1000, 1103, 960), (1000, 1103, 1920), (1000, 1103, 2880),
+   (1001, 1104, 480), (1001, 1104, 960), (1001, 1105, 480), (1001, 1105, 960),
+   (1002, 1101, 120), (1002, 1101, 240), (1002, 1101, 480), (1002, 1101, 960),
+   (1002, 1103, 120), (1002, 1103, 240), (1002, 1103, 480), (1002, 1103, 960),
+   (1002, 1104, 120), (1002, 1104, 240), (1002, 1104, 480), (1002, 1104, 960),
+   (1002, 1105, 120), (1002, 1105, 240), (1002, 1105, 480), (1002, 1105, 960)
+  ]
+
+/-- `opus_packet_get_mode`, `opus_packet_get_bandwidth` and `opus_packet_get_samples_per_frame` return, for every
+    TOC byte, exactly the Table-2 row of its configuration number; the spec's `frameDur48` is that column too. -/
+theorem toc_helpers_table2 : ∀ toc ∈ List.range 256,
+    (getMode toc, getBandwidth toc, samplesPerFrame toc 48000) = table2.getD (toc / 8) (0, 0, 0) ∧
+    frameDur48 toc = (table2.getD (toc / 8) (0, 0, 0)).2.2 := by
+  decide +kernel
+
+example : table2.length = 32 ∧ table2.getD (0x78 / 8) (0, 0, 0) = (1001, 1105, 960) := by decide
+
+/-- The frame-count helper on EVERY byte string (RFC 6716 §3.2): no bytes → OPUS_BAD_ARG; code 0 → 1 frame; codes 1 and
+    2 → 2 frames; code 3 → the 6-bit field `M` of the frame-count byte, or OPUS_INVALID_PACKET when that byte is
+    missing.  (For a code-3 packet the helper returns `M` as coded — also 0 or a count exceeding 120 ms, which
+    `opus_packet_parse` rejects; `nb_frames_agrees_any` relates it to the parser on accepted packets.) -/
+theorem nb_frames_spec :
+    getNbFrames [] = .err .badArg ∧
+    (∀ toc rest, toc % 4 = 0 → getNbFrames (toc :: rest) = .ok 1) ∧
+    (∀ toc rest, toc % 4 = 1 ∨ toc % 4 = 2 → getNbFrames (toc :: rest) = .ok 2) ∧
+    (∀ toc, toc % 4 = 3 → getNbFrames [toc] = .err .invalidPacket) ∧
+    (∀ toc b1 rest, toc % 4 = 3 → getNbFrames (toc :: b1 :: rest) = .ok (b1 % 64)) := by
+  refine ⟨rfl, ?_, ?_, ?_, ?_⟩
+  · intro toc rest h; simp [getNbFrames, h]
+  · intro toc rest h; unfold getNbFrames; rcases h with h | h <;> simp [h]
+  · intro toc h; simp [getNbFrames, h]
+  · intro toc b1 rest h; simp [getNbFrames, h]
+
+/-- On every packet the parser accepts — standard OR self-delimited framing — the frame-count helper reports the
+    parser's frame count. -/
+theorem nb_frames_agrees_any (sd : Bool) (bs : Bytes) (hb : BytesOk bs) (r : Parsed) (h : parseImpl sd bs = .ok r) :
+    getNbFrames bs = .ok r.count :=
+  FramingProofs.getNbFrames_agrees_any sd bs hb r h
+
+/-- `opus_packet_get_nb_samples` on every accepted packet (either framing) and each API rate: it returns
+    `count · samples_per_frame(toc, Fs)`, which scaled to 48 kHz is `count · frame duration` ≤ 5760 (120 ms). -/
+theorem nb_samples_of_parse (sd : Bool) (bs : Bytes) (hb : BytesOk bs) (r : Parsed)
+    (h : parseImpl sd bs = .ok r) (fs : Nat) (hfs : fs ∈ [8000, 12000, 16000, 24000, 48000]) :
+    getNbSamples bs fs = .ok (r.count * samplesPerFrame r.toc fs) ∧
+    r.count * samplesPerFrame r.toc fs * (48000 / fs) = r.count * frameDur48 r.toc ∧
+    r.count * frameDur48 r.toc ≤ 5760 :=
+  FramingProofs.getNbSamples_of_parse sd bs hb r h fs hfs
+
+/-- … and on ANY byte string whose frame-count helper succeeds with `c`: OPUS_INVALID_PACKET **iff** the packet
+    would hold more than 120 ms of audio (`c · frame duration > 5760` samples at 48 kHz), otherwise
+    `c · samples_per_frame`. -/
+theorem nb_samples_invalid_iff (toc : Nat) (rest : Bytes) (htoc : toc < 256) (c : Nat) (fs : Nat)
+    (hfs : fs ∈ [8000, 12000, 16000, 24000, 48000]) (hc : getNbFrames (toc :: rest) = .ok c) :
+    (getNbSamples (toc :: rest) fs = .err .invalidPacket ↔ 5760 < c * frameDur48 toc) ∧
+    (c * frameDur48 toc ≤ 5760 → getNbSamples (toc :: rest) fs = .ok (c * samplesPerFrame toc fs)) :=
+  FramingProofs.getNbSamples_cases toc rest htoc c fs hfs hc
+
+example : getNbSamples [0xFB, 0x03, 1, 2, 3] 16000 = .ok 960 ∧ getNbSamples [0x1B, 0x03] 48000 = .err .invalidPacket ∧
+    getNbFrames [0x1B, 0x03] = .ok 3 ∧ frameDur48 0x1B = 2880 := by decide +kernel
+
+/-- The VALUE of `opus_packet_has_lbrr` on every accepted packet: 0 for CELT-only configurations and for an empty
+    first frame; otherwise it is read from the first byte `f0` of the first frame: with `n` = number of 20 ms SILK
+    frames per Opus frame (1 for 10/20 ms, 2 for 40 ms, 3 for 60 ms), bit `7 − n` of `f0` for mono, and for stereo
+    that bit or-ed with bit `6 − 2n` — the positions right after the `n` VAD flags of the mid and of the side channel
+    in the SILK header (RFC 6716 §4.2.3-4.2.4; C09 `lbrr_flag_position` shows these are the bits the range decoder
+    hands to `silk_Decode`). -/
+theorem has_lbrr_value (bs : Bytes) (hb : BytesOk bs) (r : Parsed) (h : parseImpl false bs = .ok r) :
+    (16 ≤ r.toc / 8 % 32 → hasLbrr bs = .ok 0) ∧
+    (r.toc / 8 % 32 < 16 →
+      ∃ s0 ss, r.sizes = s0 :: ss ∧
+        (s0 = 0 → hasLbrr bs = .ok 0) ∧
+        (0 < s0 → ∃ f0, bs[r.payloadOffset]? = some f0 ∧
+          hasLbrr bs = .ok (
+            if r.toc / 4 % 2 = 1 then
+              (if f0 / 2 ^ (7 - FramingProofs.lbrrSilkFrames r.toc) % 2 ≠ 0 ∨
+                  f0 / 2 ^ (6 - 2 * FramingProofs.lbrrSilkFrames r.toc) % 2 ≠ 0 then 1 else 0)
+            else f0 / 2 ^ (7 - FramingProofs.lbrrSilkFrames r.toc) % 2))) :=
+  FramingProofs.hasLbrr_value bs hb r h
+
+/-- … and on a SILK / hybrid packet the parser rejects, the helper returns the parser's error. -/
+theorem has_lbrr_err (toc : Nat) (data : Bytes) (htoc : toc < 256) (hm : toc / 8 % 32 < 16) (e : Err)
+    (h : parseImpl false (toc :: data) = .err e) : hasLbrr (toc :: data) = .err e :=
+  FramingProofs.hasLbrr_err toc data htoc hm e h
+
+/- 20 ms mono SILK: LBRR flag = bit 6; 60 ms stereo: bits 4 (mid) and 0 (side); an empty first frame; a CELT packet -/
+example : hasLbrr [0x08, 0x40] = .ok 1 ∧ hasLbrr [0x08, 0xBF] = .ok 0 ∧
+    FramingProofs.lbrrSilkFrames 0x1C = 3 ∧ hasLbrr [0x1C, 0x01] = .ok 1 ∧ hasLbrr [0x1C, 0x10] = .ok 1 ∧
+    hasLbrr [0x1C, 0xEE] = .ok 0 ∧ hasLbrr [0x08] = .ok 0 ∧ hasLbrr [0x80, 0xFF] = .ok 0 ∧
+    hasLbrr [0x09, 1, 2, 3] = .err .invalidPacket := by decide +kernel
 
 /-- On every accepted packet the frame-count helper reports the parser's frame count. -/
 theorem nb_frames_agrees (bs : Bytes) (hb : BytesOk bs) (r : Parsed) (h : parseImpl false bs = .ok r) :
@@ -141,11 +260,91 @@ def exPacket : Packet :=
 example : parseImpl false (serialize false exPacket) = .ok (view false exPacket) := by decide +kernel
 example : parseImpl true (serialize true exPacket ++ [9, 9]) = .ok (view true exPacket) := by decide +kernel
 example : (view true exPacket).sizes = [3, 0, 300] ∧ (view true exPacket).padLen = 256 := by decide +kernel
+/- One packet per frame-count code, each shown `Valid` and parsed in both framings. -/
+/-- code 0: one SILK-WB 20 ms frame. -/
+def exCode0 : Packet := { toc := 0x48, frames := [[1, 2, 3, 4, 5]], vbr := false, pad := none }
+/-- code 1: two equal-size CELT-FB 20 ms frames, stereo. -/
+def exCode1 : Packet := { toc := 0xFD, frames := [[1, 2, 3], [4, 5, 6]], vbr := false, pad := none }
+/-- code 2: two frames of different size, the first with a two-byte length (300 = 4·12 + 252). -/
+def exCode2 : Packet := { toc := 0x7A, frames := [List.replicate 300 9, [7]], vbr := false, pad := none }
+/-- code 3, CBR, no padding: three equal frames. -/
+def exCode3Cbr : Packet := { toc := 0xFB, frames := [[1, 2], [3, 4], [5, 6]], vbr := false, pad := none }
+/-- code 3, VBR, 48 CELT 2.5 ms frames (the maximum: 48 · 120 = 5760 samples = 120 ms) of lengths 0..47, with a
+    two-link padding chain (255, 3: 254 + 3 = 257 padding bytes). -/
+def exPad48 : Pad := { n255 := 1, last := 3, bytes := List.replicate 257 0 }
+def exCode3Vbr48 : Packet :=
+  { toc := 0x83, frames := (List.range 48).map (fun i => List.replicate i (i + 1)), vbr := true, pad := some exPad48 }
+
+example : Valid exCode0 :=
+  { toc_byte := by decide, frame_max := by decide, code0 := fun _ => by decide, code1 := fun h => absurd h (by decide),
+    code2 := fun h => absurd h (by decide), code3 := fun h => absurd h (by decide), pad_ok := fun _ h => by cases h }
+example : Valid exCode1 :=
+  { toc_byte := by decide, frame_max := by decide, code0 := fun h => absurd h (by decide),
+    code1 := fun _ => ⟨by decide, rfl, rfl, by unfold allEq; decide⟩,
+    code2 := fun h => absurd h (by decide), code3 := fun h => absurd h (by decide), pad_ok := fun _ h => by cases h }
+example : Valid exCode2 :=
+  { toc_byte := by decide, frame_max := by decide +kernel, code0 := fun h => absurd h (by decide),
+    code1 := fun h => absurd h (by decide), code2 := fun _ => by decide, code3 := fun h => absurd h (by decide),
+    pad_ok := fun _ h => by cases h }
+example : Valid exCode3Cbr :=
+  { toc_byte := by decide, frame_max := by decide, code0 := fun h => absurd h (by decide),
+    code1 := fun h => absurd h (by decide), code2 := fun h => absurd h (by decide),
+    code3 := fun _ => ⟨by decide, by decide, fun _ => by unfold allEq; decide⟩, pad_ok := fun _ h => by cases h }
+example : Valid exCode3Vbr48 :=
+  { toc_byte := by decide, frame_max := by decide +kernel, code0 := fun h => absurd h (by decide),
+    code1 := fun h => absurd h (by decide), code2 := fun h => absurd h (by decide),
+    code3 := fun _ => ⟨by decide +kernel, by decide +kernel, fun h => by cases h⟩,
+    pad_ok := fun pd h => by cases h; decide +kernel }
+
+example : parseImpl false (serialize false exCode0) = .ok (view false exCode0) ∧
+    parseImpl true (serialize true exCode0 ++ [1]) = .ok (view true exCode0) ∧
+    parseImpl false (serialize false exCode1) = .ok (view false exCode1) ∧
+    parseImpl true (serialize true exCode1 ++ [1]) = .ok (view true exCode1) ∧
+    parseImpl false (serialize false exCode2) = .ok (view false exCode2) ∧
+    parseImpl true (serialize true exCode2 ++ [1]) = .ok (view true exCode2) ∧
+    parseImpl false (serialize false exCode3Cbr) = .ok (view false exCode3Cbr) ∧
+    parseImpl true (serialize true exCode3Cbr ++ [1]) = .ok (view true exCode3Cbr) := by decide +kernel
+example : parseImpl false (serialize false exCode3Vbr48) = .ok (view false exCode3Vbr48) ∧
+    parseImpl true (serialize true exCode3Vbr48 ++ [5, 5]) = .ok (view true exCode3Vbr48) ∧
+    (view false exCode3Vbr48).count = 48 ∧ (view false exCode3Vbr48).padLen = 257 ∧
+    (serialize false exCode3Vbr48).take 5 = [0x83, 0xF0, 255, 3, 0] ∧
+    (view false exCode3Vbr48).packetOffset = 1 + 1 + 2 + 47 + 1128 + 257 := by decide +kernel
+/- a 49th frame makes it exceed 120 ms: rejected -/
+example : parseImpl false ([0x83, 0xB1] ++ List.replicate 48 0) = .err .invalidPacket := by decide +kernel
+
 /-- and a rejected one: code 1 with an odd payload. -/
 example : parseImpl false [0x01, 1, 2, 3] = .err .invalidPacket := by decide +kernel
 
 
 /-! ### `int_ranges`: the unbounded `Int` arithmetic of the model hides no C overflow -/
+
+/-- The trace lists `implTrace` / `castStores` of the `int_ranges` theorems below are not a look-alike computed on the
+    side: `parseImplT` (OpusModel/FramingTrace.lean) is the parser written once more with every `int` / `opus_int32`
+    intermediate bound by a `let`, used for the control flow and the result, and logged; its result IS `parseImpl`'s and
+    its two logs ARE `implTrace` and `castStores`, for every input in both framings.  The driver evaluates the `parse`
+    operation of the correspondence run through `parseImplT`, so the instrumented function is the one compared with
+    `opus_packet_parse_impl` on every generated packet. -/
+theorem instrumented_parser_is_parser (sd : Bool) (bs : Bytes) :
+    (parseImplT sd bs).1 = parseImpl sd bs ∧
+    (parseImplT sd bs).2.1 = implTrace sd bs ∧
+    (parseImplT sd bs).2.2 = castStores sd bs :=
+  FramingProofs.parseImplT_eq sd bs
+
+/-- `int_ranges` stated on the instrumented parser itself: for every packet of fewer than 2^31 bytes every logged
+    `int` / `opus_int32` intermediate fits 32 bits; on success every `(opus_int16)` cast operand lies in `[0, 1275]`;
+    and a cast operand that does not fit `opus_int16` only occurs on a call that returns OPUS_INVALID_PACKET. -/
+theorem int_ranges_of_parser (sd : Bool) (bs : Bytes) (hb : BytesOk bs) :
+    (bs.length ≤ 2147483647 → ∀ v ∈ (parseImplT sd bs).2.1, FramingProofs.I32 v) ∧
+    (∀ r, (parseImplT sd bs).1 = .ok r → ∀ v ∈ (parseImplT sd bs).2.2, 0 ≤ v ∧ v ≤ 1275) ∧
+    (∀ v ∈ (parseImplT sd bs).2.2, ¬ FramingProofs.I16 v → (parseImplT sd bs).1 = .err .invalidPacket) := by
+  obtain ⟨h1, h2, h3⟩ := FramingProofs.parseImplT_eq sd bs
+  rw [h1, h2, h3]
+  exact ⟨fun hl => implTrace_range sd bs hb hl, fun r hr => castStores_lossless sd bs hb r hr,
+    fun v hv hbig => castStores_truncated_rejected sd bs hb v hv hbig⟩
+
+example : parseImplT false [0xFB, 0xC3, 2, 1, 0, 9, 9, 9, 9, 0, 0] =
+    (.ok { toc := 0xFB, count := 3, sizes := [1, 0, 3], payloadOffset := 5, padLen := 2, packetOffset := 11 },
+     [960, 10, 2880, 9, 8, 6, 2, 1, 5, 2, 4, 0, 4, 1, 3, 5, 5, 6, 6, 9, 2, 11], [3]) := by decide +kernel
 
 /-- `int_ranges`, 32-bit half.  For EVERY packet of fewer than 2^31 bytes (every `len` the
     `opus_int32` parameter can hold), in both framings, on every path — accepted or rejected early —
